@@ -121,6 +121,20 @@ where
 		status_send_channel: &Option<Sender<StatusMessage>>,
 	) -> Result<(), Error> {
 		self.is_running.store(true, Ordering::Relaxed);
+		let res = self.run_loop(frequency, keychain_mask, status_send_channel);
+		// however the loop ends (also on an error, e.g. a token that is no longer valid after the
+		// wallet was closed and reopened) the updater is not running any more: owner calls skip
+		// their own refresh while this flag is set
+		self.is_running.store(false, Ordering::Relaxed);
+		res
+	}
+
+	fn run_loop(
+		&self,
+		frequency: Duration,
+		keychain_mask: Option<SecretKey>,
+		status_send_channel: &Option<Sender<StatusMessage>>,
+	) -> Result<(), Error> {
 		loop {
 			let wallet_opened = {
 				let mut w_lock = self.wallet_inst.lock();
